@@ -9,6 +9,7 @@ from __future__ import annotations
 
 import json
 import os
+import random
 import shutil
 import sys
 
@@ -42,7 +43,7 @@ def observe_case(item):
     root = item["root"]
     cap = observe.Captured()
     try:
-        project, cap = observe.parse_and_correlate([root], settings_kw=item.get("settings"), cap=cap)
+        project, cap = observe.parse_and_correlate(item.get("src_dirs") or [root], settings_kw=item.get("settings"), cap=cap)
         table = observe.tree(project)
         err = None
     except BaseException as e:  # FORD must not fail on valid input
@@ -77,8 +78,15 @@ def run_model(seed, nstyles, keep_dir=None):
     # the last random spelling again, (a) under the project option `lower: true` (names and keywords are lower-cased by FORD,
     # character literals must keep their spelling), (b) laid out with continuations (also `token&` / `&  token` and breaks
     # inside literals), `;`, comments and blank lines
-    items.append({"root": items[-1]["root"], "style": styles[-1][0] + "+lower", "settings": {"lower": True}})
+    srng = random.Random(seed * 5 + 3)
+    items.append({"root": items[-1]["root"], "style": styles[-1][0] + "+lower", "settings": {"lower": True, "sort": srng.choice(["alpha", "permission", "permission-alpha", "type", "type-alpha", "src"])}})
     texts[items[-1]["style"]] = texts[styles[-1][0]]
+    # the canonical rendering once more with source directories that overlap (the same directory twice, a directory and its sub-directory):
+    # every file is one file
+    subdirs = sorted({f.subdir for f in files if f.subdir})
+    plain_root = items[0]["root"]
+    items.append({"root": plain_root, "style": "plain+overlapping_src_dirs", "src_dirs": [plain_root] + ([os.path.join(plain_root, subdirs[0])] if subdirs and srng.random() < 0.7 else [plain_root])})
+    texts["plain+overlapping_src_dirs"] = texts["plain"]
     root = os.path.join(base, "laid_out")
     lay = layout.Layout(seed + 17, plain=False, cont_p=0.3, comment_p=0.1, semi_p=0.1, lit_break_p=0.3)
     texts["laid_out"] = write_project(root, files, fgen.Style(seed * 101 + 7), lay)
@@ -107,8 +115,17 @@ def case(seed_nstyles):
             continue
         if r["diags"]:
             viol.append({"kf": {"kind": "diagnostic_on_valid_input", "diag": r["diags"][0].split("\n")[0][:60]}, "w": {"style": sname, "diags": r["diags"], "files": texts[sname]}})
-        tables[sname] = r["table"]
-        diffs = observe.diff_tables(expected, r["table"], ignore_keys=IGNORE_FIELDS)
+        exp_here = expected
+        if (it.get("settings") or {}).get("sort", "src") != "src":
+            # `sort` is documented to order the listed entities, members of COMMON blocks and NAMELIST groups among them: those lists are
+            # compared as sets in this rendering (argument lists keep their order whatever `sort` says)
+            def unorder(t):
+                return {k: ({**v, "vars": sorted(v["vars"])} if isinstance(v, dict) and v.get("kind") in ("common", "namelist") and isinstance(v.get("vars"), list) else v) for k, v in t.items()}
+
+            r["table"], exp_here = unorder(r["table"]), unorder(expected)
+        else:
+            tables[sname] = r["table"]
+        diffs = observe.diff_tables(exp_here, r["table"], ignore_keys=IGNORE_FIELDS)
         seen = set()
         for path, field, ev, ov in diffs:
             kf = {"kind": "reference_mismatch", **mechanism(path, field, ev, ov)}
@@ -171,8 +188,8 @@ def main():
             run.inconc(f"{st}: {str(r)[-300:]}")
             continue
         run.case(key=r["hash"], nontrivial=r["nontrivial"], sample=r["sample"] if r["entities"] > 25 else None)
-        run.count("entities_compared", r["entities"] * (nstyles + 2))
-        run.count("renderings_parsed", nstyles + 2)
+        run.count("entities_compared", r["entities"] * (nstyles + 3))
+        run.count("renderings_parsed", nstyles + 3)
         for k in r["kinds"]:
             run.seen("entity_kinds", k)
         for v in r["viol"]:
